@@ -175,6 +175,15 @@ def build(spec, register=True):
              '    o.rec = VF_rec(VF_PID, %s)\n    return o\n' % (p.name, base, p.name, sp, recv))
     exec(src, g)  # pylint: disable=exec-used
     p.original = g[p.name]
+  elif shape in ('callable', 'boundmethod'):
+    # a callable object / a bound method handed to external_configurable: `self` is bound, the caller never passes it
+    sp = (', ' + params) if params else ''
+    mname = '__call__' if shape == 'callable' else 'run'
+    src = ('class VF_Holder:\n  """doc of %s"""\n  def %s(self%s):\n    VF_rec(VF_PID, %s)\n    return ["ret", VF_PID, next(VF_ctr)]\n' %
+           (p.name, mname, sp, recv))
+    exec(src, g)  # pylint: disable=exec-used
+    inst = g['VF_Holder']()
+    p.original = inst if shape == 'callable' else inst.run
   elif shape == 'method':
     sp = (', ' + params) if params else ''
     cname = spec.get('cls_name') or ('K%d' % n)
@@ -202,6 +211,8 @@ def do_register(p):
   if spec.get('deny'):
     kw['denylist'] = list(spec['deny'])
   api = spec.get('api', 'configurable')
+  if spec['shape'] in ('callable', 'boundmethod'):
+    api = 'external'
   if spec['shape'] == 'method':
     # the method is registered on the plain function, then the class is registered
     gin.register(module=None, **kw)(p.original)
